@@ -393,4 +393,20 @@ def parseContentType (v : Bytes) : R Bytes := do
   let first ← idx (splitOn 59 v) 0
   pure (trimSpaceAscii first)
 
+/-! ### `dumpRequest` (handler_logger.go): runs on every request of every HTTP listener, first -/
+
+def maxRequestBodySizeToLog : Nat := 10 * 1024
+
+/-- `io.ReadAll(io.LimitReader(req.Body, max+1))`: at most max+1 bytes of the body, whatever the declared
+`Content-Length` is (it is −1 when the length is unknown) -/
+def logPeek (_contentLength : Int) (body : Bytes) : Bytes := body.take (maxRequestBodySizeToLog + 1)
+
+/-- the body as logged: `capped[:max]` + marker when longer than max -/
+def dumpCapped (contentLength : Int) (body : Bytes) : R Bytes :=
+  let peek := logPeek contentLength body
+  if peek.length > maxRequestBodySizeToLog then do
+    let c ← sliceR peek 0 maxRequestBodySizeToLog
+    pure (c ++ asc ['\n','\n','(','t','r','u','n','c','a','t','e','d',' ','b','o','d','y',')','\n'])
+  else pure peek
+
 end MtxVerif.C35
